@@ -246,8 +246,9 @@ MANIFEST = {
     "re-proved by `decide +kernel` on the table translated from rich/_cell_widths.py on every run; cache transparency for "
     "every capacity and call history; set_cell_size exactness; chop_cells concatenation/fit; adjust_line_length / "
     "split_and_crop_lines / set_shape exact lengths, stream preservation and padding style; simplify stream preservation. "
-    "Tie: all 1,114,112 code points and ~350k generated cases per run compared model-vs-rich, plus the theorems' "
-    "executable statements evaluated on rich's own outputs.",
+    "Tie: all 1,114,112 code points and ~170k further generated cases per quick run compared model-vs-rich (169,825 in the "
+    "recorded quick run; thorough: ~3.7M), plus the theorems' executable statements evaluated on rich's own outputs (~180k "
+    "direct evaluations per quick run, so ~350k non-code-point evaluations in all).",
     "note": "Trusted: Lean kernel; axioms propext/Classical.choice/Quot.sound; translator harness/tables.py; the correspondence "
     "harness; styles are opaque ids in the segment model; lone surrogates go through the raw code-point path only. "
     "functools.lru_cache on _get_codepoint_cell_size is assumed transparent (exercised, not modelled).",
